@@ -1,9 +1,402 @@
-//! C11 — not implemented yet.
-use crate::util::{Args, Out};
+//! C11 — scheduled tasks run exactly once at exactly their sample: generated task
+//! sets with unique power-of-two weights, checked per sample against a 20-line model
+//! on both runtimes.
+
+use super::{drive, replay_one};
+use crate::gens::core::fmt_num;
+use crate::run::{Backend, RunError, run_program};
+use crate::util::{Args, Out, Rng, bits_eq};
+use serde::{Deserialize, Serialize};
 use serde_json::{Value, json};
 
-pub fn meta(_args: &Args) -> Value {
-    json!({"level": "exploration", "rule": "not implemented", "floor": {"quick": 1000000, "thorough": 1000000}})
+#[derive(Clone, Debug, Serialize, Deserialize)]
+pub enum Task {
+    /// scheduled from global scope at `t` (t >= 1); adds weight bit `j`
+    Global { t: f64, j: usize },
+    /// scheduled from dsp at sample `s` for time s + d (d >= 1)
+    FromDsp { s: usize, d: f64, j: usize },
+    /// a task scheduled from global scope at `t` (adds bit `j`) that schedules another one-shot (bit `j2`) at now + d
+    Spawner { t: f64, j: usize, d: f64, j2: usize },
+    /// self-rescheduling chain starting at `t0` with period `p`, counting its runs in chain counter `k`
+    Chain { t0: f64, p: f64, k: usize },
 }
-pub fn run(_args: &Args, _out: &mut Out) {}
-pub fn replay(_args: &Args, _out: &mut Out, _case: &Value) {}
+
+#[derive(Clone, Debug, Serialize, Deserialize)]
+pub struct Case {
+    pub tasks: Vec<Task>,
+    pub n: usize,
+    /// order in which the global-scope scheduling statements are written
+    pub order: Vec<usize>,
+    /// judge WASM on this case whatever the quarantine list says (witnesses)
+    #[serde(default)]
+    pub wasm_all: Option<bool>,
+}
+
+fn nbits(c: &Case) -> usize {
+    c.tasks
+        .iter()
+        .map(|t| match t {
+            Task::Global { j, .. } | Task::FromDsp { j, .. } => *j + 1,
+            Task::Spawner { j, j2, .. } => (*j).max(*j2) + 1,
+            Task::Chain { .. } => 0,
+        })
+        .max()
+        .unwrap_or(0)
+}
+fn nchains(c: &Case) -> usize {
+    c.tasks.iter().filter(|t| matches!(t, Task::Chain { .. })).count()
+}
+fn naccs(c: &Case) -> usize {
+    nbits(c).div_ceil(50).max(1)
+}
+
+pub fn source(c: &Case) -> String {
+    let mut s = String::new();
+    let na = naccs(c);
+    for a in 0..na {
+        s.push_str(&format!("let acc{a} = 0.0\n"));
+        s.push_str(&format!("fn mkadd{a}(w){{\n  | | {{\n    acc{a} = acc{a} + w\n  }}\n}}\n"));
+    }
+    for k in 0..nchains(c) {
+        s.push_str(&format!("let cnt{k} = 0.0\n"));
+    }
+    let w = |j: usize| fmt_num((2.0f64).powi((j % 50) as i32), false);
+    let mut global_stmts: Vec<String> = vec![];
+    let mut dsp_stmts: Vec<String> = vec![];
+    let mut chain_i = 0;
+    for (i, t) in c.tasks.iter().enumerate() {
+        match t {
+            Task::Global { t, j } => {
+                s.push_str(&format!("let task{i} = mkadd{}({})\n", j / 50, w(*j)));
+                global_stmts.push(format!("let _s{i} = task{i}@{}\n", fmt_num(*t, false)));
+            }
+            Task::FromDsp { s: at, d, j } => {
+                s.push_str(&format!("let task{i} = mkadd{}({})\n", j / 50, w(*j)));
+                s.push_str(&format!(
+                    "fn sched{i}(n){{\n  if (n == {}) {{\n    let _ = task{i}@(n + {})\n    0.0\n  }} else {{\n    0.0\n  }}\n}}\n",
+                    fmt_num(*at as f64, false),
+                    fmt_num(*d, false)
+                ));
+                dsp_stmts.push(format!("  let _d{i} = sched{i}(now)\n"));
+            }
+            Task::Spawner { t, j, d, j2 } => {
+                s.push_str(&format!("let child{i} = mkadd{}({})\n", j2 / 50, w(*j2)));
+                s.push_str(&format!(
+                    "fn spawner{i}(){{\n  acc{a} = acc{a} + {}\n  let _ = child{i}@(now + {})\n}}\n",
+                    w(*j),
+                    fmt_num(*d, false),
+                    a = j / 50
+                ));
+                global_stmts.push(format!("let _s{i} = spawner{i}@{}\n", fmt_num(*t, false)));
+            }
+            Task::Chain { t0, p, .. } => {
+                let k = chain_i;
+                chain_i += 1;
+                s.push_str(&format!(
+                    "fn chain{i}(){{\n  cnt{k} = cnt{k} + 1.0\n  let _ = chain{i}@(now + {})\n}}\n",
+                    fmt_num(*p, false)
+                ));
+                global_stmts.push(format!("let _s{i} = chain{i}@{}\n", fmt_num(*t0, false)));
+            }
+        }
+    }
+    // global scheduling statements in the requested order
+    let mut order: Vec<usize> = c.order.iter().copied().filter(|i| *i < global_stmts.len()).collect();
+    for i in 0..global_stmts.len() {
+        if !order.contains(&i) {
+            order.push(i);
+        }
+    }
+    for i in order {
+        s.push_str(&global_stmts[i]);
+    }
+    s.push_str("fn dsp(){\n");
+    for d in &dsp_stmts {
+        s.push_str(d);
+    }
+    let mut outs: Vec<String> = (0..na).map(|a| format!("acc{a}")).collect();
+    outs.extend((0..nchains(c)).map(|k| format!("cnt{k}")));
+    if outs.len() == 1 {
+        s.push_str(&format!("  {}\n}}\n", outs[0]));
+    } else {
+        s.push_str(&format!("  ({})\n}}\n", outs.join(", ")));
+    }
+    s
+}
+
+/// The model: per sample, every pending task whose truncated time equals the sample runs once, before dsp.
+pub fn model(c: &Case) -> (Vec<f64>, u64) {
+    #[derive(Clone)]
+    enum Eff {
+        Bit(usize),
+        Spawn(usize, f64, usize),
+        Chain(f64, usize),
+    }
+    let na = naccs(c);
+    let nc = nchains(c);
+    let mut acc = vec![0.0f64; na];
+    let mut cnt = vec![0.0f64; nc];
+    let mut pending: Vec<(u64, Eff)> = vec![];
+    let mut dsp_sched: Vec<(usize, f64, usize)> = vec![];
+    let mut ci = 0;
+    for t in &c.tasks {
+        match t {
+            Task::Global { t, j } => pending.push((*t as u64, Eff::Bit(*j))),
+            Task::FromDsp { s, d, j } => dsp_sched.push((*s, *d, *j)),
+            Task::Spawner { t, j, d, j2 } => pending.push((*t as u64, Eff::Spawn(*j, *d, *j2))),
+            Task::Chain { t0, p, .. } => {
+                pending.push((*t0 as u64, Eff::Chain(*p, ci)));
+                ci += 1;
+            }
+        }
+    }
+    let mut out = vec![];
+    let mut executed = 0u64;
+    for s in 0..c.n {
+        // tasks scheduled while running tasks of this sample are always for later samples
+        let (due, rest): (Vec<_>, Vec<_>) = pending.into_iter().partition(|(w, _)| *w <= s as u64);
+        pending = rest;
+        for (_, e) in due {
+            executed += 1;
+            match e {
+                Eff::Bit(j) => acc[j / 50] += (2.0f64).powi((j % 50) as i32),
+                Eff::Spawn(j, d, j2) => {
+                    acc[j / 50] += (2.0f64).powi((j % 50) as i32);
+                    pending.push(((s as f64 + d) as u64, Eff::Bit(j2)));
+                }
+                Eff::Chain(p, k) => {
+                    cnt[k] += 1.0;
+                    pending.push(((s as f64 + p) as u64, Eff::Chain(p, k)));
+                }
+            }
+        }
+        for (at, d, j) in &dsp_sched {
+            if *at == s {
+                pending.push(((s as f64 + d) as u64, Eff::Bit(*j)));
+            }
+        }
+        out.extend(acc.iter().copied());
+        out.extend(cnt.iter().copied());
+    }
+    (out, executed)
+}
+
+pub struct Checked {
+    pub violations: Vec<(String, String)>,
+    pub tasks_executed: u64,
+    pub samples: u64,
+    pub ran: bool,
+    pub wasm_judged: bool,
+}
+
+/// tasks scheduled while a tick is running (from dsp, from a task, a chain)
+fn scheduled_in_tick(c: &Case) -> usize {
+    c.tasks.iter().filter(|t| !matches!(t, Task::Global { .. })).count()
+}
+
+thread_local! {
+    /// known finding `wasm-closure-allocated-in-tick-scheduled` active: judge WASM only on cases that
+    /// schedule at most one closure during ticks
+    static WASM_SAFE_ONLY: std::cell::Cell<bool> = const { std::cell::Cell::new(false) };
+}
+
+thread_local! {
+    /// known finding `wasm-many-tasks-from-global-scope` active: judge WASM only on cases with <= 40 tasks
+    static WASM_FEW_ONLY: std::cell::Cell<bool> = const { std::cell::Cell::new(false) };
+}
+
+pub fn check(c: &Case) -> Checked {
+    let mut res = Checked { violations: vec![], tasks_executed: 0, samples: 0, ran: false, wasm_judged: false };
+    let src = source(c);
+    let (want, executed) = model(c);
+    res.tasks_executed = executed;
+    let ch = naccs(c) + nchains(c);
+    for b in [Backend::Vm, Backend::Wasm] {
+        if b == Backend::Wasm && WASM_SAFE_ONLY.with(|w| w.get()) && scheduled_in_tick(c) > 1 {
+            continue;
+        }
+        if b == Backend::Wasm && WASM_FEW_ONLY.with(|w| w.get()) && c.tasks.len() > 40 {
+            continue;
+        }
+        if b == Backend::Wasm {
+            res.wasm_judged = true;
+        }
+        match run_program(b, &src, true, c.n, &|_, _| 0.0, false, None) {
+            Ok(r) => {
+                res.ran = true;
+                res.samples += c.n as u64;
+                if r.out.len() != want.len() {
+                    res.violations.push((format!("channel-count/{}", b.name()), format!("{} words vs {}", r.out.len(), want.len())));
+                    continue;
+                }
+                if let Some(i) = (0..want.len()).find(|&i| !bits_eq(want[i], r.out[i])) {
+                    let (s, k) = (i / ch, i % ch);
+                    let what = if k < naccs(c) {
+                        let diff = r.out[i] - want[i];
+                        let kind = if diff < 0.0 { "missing (late or dropped)" } else { "extra (early or duplicated)" };
+                        format!("accumulator {k}: runtime {} model {} -> weight {} {kind}", r.out[i], want[i], diff.abs())
+                    } else {
+                        format!("chain counter {}: runtime {} model {}", k - naccs(c), r.out[i], want[i])
+                    };
+                    let class = if k < naccs(c) { if r.out[i] < want[i] { "task-late-or-dropped" } else { "task-early-or-duplicated" } } else { "chain-run-count" };
+                    res.violations.push((format!("{class}/{}", b.name()), format!("sample {s}: {what}")));
+                }
+            }
+            Err(RunError::Build(e)) => res.violations.push((format!("build/{}: {}", b.name(), super::progcase::norm(&e.short())), e.short())),
+            Err(RunError::DspPanic(t, p)) => res.violations.push((format!("{}/dsp/{}", p.sig(), b.name()), format!("sample {t}: {} @ {}", p.msg, p.loc))),
+        }
+    }
+    res
+}
+
+fn minimise(c: &Case, sig: &str) -> Case {
+    let has = |x: &Case| check(x).violations.iter().any(|v| v.0 == sig);
+    let mut cur = c.clone();
+    loop {
+        let mut progressed = false;
+        let mut chunk = (cur.tasks.len() / 2).max(1);
+        while chunk >= 1 {
+            let mut i = 0;
+            while i < cur.tasks.len() && cur.tasks.len() > 1 {
+                let mut t = cur.clone();
+                let end = (i + chunk).min(t.tasks.len());
+                t.tasks.drain(i..end);
+                if !t.tasks.is_empty() && has(&t) {
+                    cur = t;
+                    progressed = true;
+                } else {
+                    i += chunk;
+                }
+            }
+            if chunk == 1 {
+                break;
+            }
+            chunk /= 2;
+        }
+        if cur.n > 4 {
+            let mut t = cur.clone();
+            t.n = (cur.n / 2).max(4);
+            if has(&t) {
+                cur = t;
+                progressed = true;
+            }
+        }
+        if !progressed {
+            return cur;
+        }
+    }
+}
+
+fn exec_with(args: &Args) -> impl Fn(&Case, usize, &mut Out) -> bool + '_ {
+    move |c, idx, out| {
+        WASM_SAFE_ONLY.with(|w| w.set(c.wasm_all != Some(true) && args.q("wasm-closure-allocated-in-tick-scheduled")));
+        WASM_FEW_ONLY.with(|w| w.set(c.wasm_all != Some(true) && args.q("wasm-many-tasks-from-global-scope")));
+        exec(c, idx, out)
+    }
+}
+
+fn exec(c: &Case, idx: usize, out: &mut Out) -> bool {
+    let r = check(c);
+    out.count(if r.wasm_judged { "cases_judged_on_wasm" } else { "cases_judged_on_vm_only" }, 1);
+    out.count("tasks_executed_in_model", r.tasks_executed);
+    out.count("samples_compared", r.samples);
+    out.count("tasks_in_case", c.tasks.len() as u64);
+    for t in &c.tasks {
+        out.count(
+            match t {
+                Task::Global { .. } => "kind:from-global-scope",
+                Task::FromDsp { .. } => "kind:from-dsp",
+                Task::Spawner { .. } => "kind:from-running-task",
+                Task::Chain { .. } => "kind:self-rescheduling-chain",
+            },
+            1,
+        );
+    }
+    for (sig, detail) in &r.violations {
+        let key = format!("violations:{sig}");
+        let seen = out.counters.get(&key).copied().unwrap_or(0);
+        out.count(&key, 1);
+        if seen < 3 {
+            let small = if seen == 0 { minimise(c, sig) } else { c.clone() };
+            let d = check(&small).violations.into_iter().find(|v| &v.0 == sig).map(|v| v.1).unwrap_or(detail.clone());
+            let mut j = serde_json::to_value(&small).unwrap();
+            j["src"] = Value::String(source(&small));
+            out.violation(idx, sig, &d, &j);
+        }
+    }
+    r.ran && c.tasks.len() >= 2 && r.tasks_executed >= 1
+}
+
+fn gen_case(args: &Args, idx: usize, rng: &mut Rng) -> Case {
+    let big = args.thorough() && rng.chance(1, 20);
+    let ntasks = if big { 500 + rng.below(1500) } else if rng.chance(1, 4) { 60 + rng.below(140) } else { 2 + rng.below(40) };
+    let n = if big { 400 + rng.below(2000) } else { 16 + rng.below(if args.thorough() { 600 } else { 100 }) };
+    let frac = |rng: &mut Rng| *rng.pick(&[0.0, 0.0, 0.5, 0.25, 0.999, 0.001]);
+    let mut tasks = vec![];
+    let mut j = 0usize;
+    let same_time = if rng.chance(1, 3) { Some(1 + rng.below(n.min(60))) } else { None };
+    // on WASM a function scheduled from a running task is wrapped in a closure allocated in the
+    // per-tick arena (known finding): more than one chain makes the dangling addresses collide
+    let nchain = rng.below(4);
+    for _ in 0..ntasks {
+        let tt = |rng: &mut Rng| match same_time {
+            Some(t) if rng.chance(2, 3) => t as f64 + frac(rng),
+            _ => (1 + rng.below(n + 5)) as f64 + frac(rng),
+        };
+        let safe_case = args.q("wasm-closure-allocated-in-tick-scheduled") && idx % 2 == 0;
+        match if safe_case { 0 } else { rng.below(10) } {
+            0..=5 => {
+                tasks.push(Task::Global { t: tt(rng), j });
+                j += 1;
+            }
+            6 | 7 => {
+                tasks.push(Task::FromDsp { s: rng.below(n), d: (1 + rng.below(20)) as f64 + frac(rng), j });
+                j += 1;
+            }
+            _ => {
+                tasks.push(Task::Spawner { t: tt(rng), j, d: (1 + rng.below(12)) as f64 + frac(rng), j2: j + 1 });
+                j += 2;
+            }
+        }
+    }
+    let nchain = if args.q("wasm-closure-allocated-in-tick-scheduled") && idx % 2 == 0 { nchain.min(1) } else { nchain };
+    for k in 0..nchain {
+        tasks.push(Task::Chain { t0: (1 + rng.below(8)) as f64 + frac(rng), p: (1 + rng.below(17)) as f64 + *rng.pick(&[0.0, 0.0, 0.5]), k });
+    }
+    // order of the scheduling statements: ascending time, descending or random
+    let nglob = tasks.iter().filter(|t| !matches!(t, Task::FromDsp { .. })).count();
+    let mut order: Vec<usize> = (0..nglob).collect();
+    match (idx + rng.below(3)) % 3 {
+        0 => {}
+        1 => order.reverse(),
+        _ => rng.shuffle(&mut order),
+    }
+    Case { tasks, n, order, wasm_all: None }
+}
+
+pub fn meta(args: &Args) -> Value {
+    json!({
+        "level": "exploration",
+        "rule": "task sets of 2-200 (thorough: up to 2000) tasks scheduled with @ from global scope, from dsp at chosen samples, from running tasks, plus up to 3 self-rescheduling chains with periods 1..17.5; fractional times, up to all tasks at one sample, scheduling statements in ascending / descending / random order; always strictly later than the current sample. One-shot task j adds 2^(j mod 50) to accumulator j div 50, chains count their runs; dsp exposes all accumulators and every sample of both runtimes is compared bitwise with the model (run exactly once, before dsp of sample floor(t)). Non-trivial = at least two tasks and at least one executed within the run; distinct = hash of the task table.",
+        "assumptions": ["effects commute, so the order among tasks of one sample is not constrained", "unique power-of-two weights make a missing, early or duplicated task visible in one f64 comparison"],
+        "floor": {"quick": 40, "thorough": 1500},
+        "case_timeout_s": 90,
+        "hang_is_violation": false,
+        "budget": args.cases(900, 8000),
+    })
+}
+
+pub fn run(args: &Args, out: &mut Out) {
+    let total = args.cases(900, 8000);
+    let exec = exec_with(args);
+    drive(args, out, total, |idx, rng| Some(gen_case(args, idx, rng)), exec);
+}
+
+pub fn replay(args: &Args, out: &mut Out, case: &Value) {
+    let mut c = case.clone();
+    if let Some(o) = c.as_object_mut() {
+        o.remove("src");
+    }
+    let exec = exec_with(args);
+    replay_one::<Case>(out, &c, exec);
+}
